@@ -928,6 +928,54 @@ Example ex_ambiguous_rejected :
   out_err (do_parse ex_amb [b1 115]) = Some EInvalidSubcommand.
 Proof. cbv zeta. split; [vmr|]. split; [vm_compute; lia|]. split; [vmr|]. split; [solve_plain|]. repeat split; vmr. Qed.
 
+(** ** the head of the chain, for an ARBITRARY rest of the line
+    Whatever follows the selecting token — in or outside any class, accepted by the child or, under
+    [ignore_errors], not — a level that succeeds records the canonical name of the subcommand the
+    selection resolves to. *)
+Lemma build_subcommand_some c sc0 : In sc0 (c_subs c) -> exists sc, build_subcommand c (c_name sc0) = Some sc.
+Proof.
+  intros Hin. unfold build_subcommand.
+  destruct (find_exists (fun s => beq (c_name s) (c_name sc0)) (c_subs c) sc0 Hin (beq_refl _)) as [y Hy].
+  rewrite Hy. eexists. reflexivity.
+Qed.
+
+Theorem wlevel_head c b pre F pst pos tok n keep rest f st0 st :
+  is_set s_args_negate_subs c = false -> wprefix c b pre F pst pos -> wsel c b pst pos tok n keep ->
+  start_ok b st0 -> get_matches_with (S f) c (pre ++ tok :: rest) st0 = ROk st ->
+  exists sc0 m, find_subcommand c n = Some sc0 /\ mt_sub (mt st) = Some (c_name sc0, m).
+Proof.
+  intros Hneg Hp Hsel [Hsub0 [Hsk0 Hat0]] H.
+  destruct (gmw_step f c _ st0 st H) as [lr [Hlr Hm]]. change (mkL PSValuesDone 1 false false) with (lsV 1 false) in Hlr.
+  rewrite (loop_wprefix c b pre F pst pos Hp (tok :: rest) st0 Hsk0) in Hlr.
+  destruct (F st0) as [st'|e s1|x] eqn:EF; cbn [rbind] in Hlr; try discriminate.
+  destruct (wprefix_fs c b pre F pst pos Hp st0 st' Hsk0 EF) as [Hsk' Hat'].
+  destruct (wsel_loop c b pst pos tok n keep Hsel Hneg rest (negb (is_nil pre)) st' Hsk'
+              (fun Hb => eq_trans Hat' (Hat0 Hb))) as [T [HT _]].
+  rewrite HT in Hlr. destruct (T st') as [st1|e s1|x] eqn:ET; cbn [rbind] in Hlr; try discriminate.
+  inversion Hlr; subst lr. clear Hlr.
+  destruct Hm as [sc0 [Hf Hm]]. exists sc0.
+  pose proof (find_some_in _ _ _ Hf) as [Hin _].
+  destruct (build_subcommand_some c sc0 Hin) as [sc Hb]. rewrite Hb in Hm.
+  destruct Hm as [sub_st [_ Hsub]]. exists (into_inner (mt sub_st)). split; [exact Hf|].
+  rewrite Hsub, (build_subcommand_name c _ sc Hb). reflexivity.
+Qed.
+
+(** the inferred case spelled out: [tok] is a prefix of a name or alias of exactly one subcommand [sc0]
+    (possibly only of an ALIAS): the level records [c_name sc0], whatever the rest of the line *)
+Theorem infer_head_canonical c b pre F pos tok n rest f st0 st :
+  is_set s_args_negate_subs c = false -> wprefix c b pre F PSValuesDone pos ->
+  utf8_valid tok = true -> is_set s_infer_sub c = true -> infer_list c tok = [n] -> not_help c n ->
+  start_ok b st0 -> get_matches_with (S f) c (pre ++ tok :: rest) st0 = ROk st ->
+  exists sc0 m, mt_sub (mt st) = Some (c_name sc0, m) /\ In sc0 (c_subs c) /\ sub_matches tok sc0 = true /\
+    (forall s, In s (c_subs c) -> sub_matches tok s = true -> s = sc0).
+Proof.
+  intros Hneg Hp Hu Hi Hl Hh Hst H.
+  assert (Hsel : wsel c b PSValuesDone pos tok n false) by (apply ws_name, ns_unique; assumption).
+  destruct (wlevel_head c b pre F PSValuesDone pos tok n false rest f st0 st Hneg Hp Hsel Hst H) as [sc0 [m [Hf Hsub]]].
+  destruct (infer_unique_target c tok n Hl) as [sc1 [Hf1 [Hin [Hm [_ [_ Huniq]]]]]].
+  rewrite Hf1 in Hf. inversion Hf; subst sc1. exists sc0, m. auto.
+Qed.
+
 (** * Part 5: the chain composed with the globals merge; [canonical] comes from the validity gate *)
 Import ReentrancyProofs.
 
@@ -1478,4 +1526,17 @@ Proof.
   split; [reflexivity|]. split; [vmr|]. split; [vmr|]. split; [vmr|]. split; [vmr|].
   exists (build_self (ex_wide false)). eexists. split; [cbn [lazy_cmds]; apply in_eq|].
   split; [vm_compute; left; reflexivity|]. split; vmr.
+Qed.
+
+(** the hypotheses of [infer_head_canonical] hold for `del` on [ex_wide] (`del` matches only the alias
+    `delete` of `remove`) *)
+Example ex_infer_head_hyps :
+  let c := build_self (ex_wide false) in
+  is_set s_args_negate_subs c = false /\ utf8_valid [100; 101; 108] = true /\ is_set s_infer_sub c = true /\
+  infer_list c [100; 101; 108] = [w_delete] /\ not_help c w_delete /\
+  (exists st, get_matches_with 4 c ([] ++ [100; 101; 108] :: []) ps_new = ROk st /\
+              opt_map fst (mt_sub (mt st)) = Some w_remove).
+Proof.
+  cbv zeta. split; [vmr|]. split; [vmr|]. split; [vmr|]. split; [vmr|]. split; [vmr|].
+  eexists. split; vmr.
 Qed.
